@@ -74,6 +74,7 @@ func runC02(t *testing.T, c *choice.Stream, r *Result, opt RunOpt) {
 		cf.Database = []string{"", "db1"}[c.Draw("db", 2)]
 		cf.ClientName = []string{"", "sim/1.0"}[c.Draw("cname", 2)]
 		nq := c.Range("queries", 1, 3)
+		slowPing := []bool{c.Bool("slowping.0", 1, 10), c.Bool("slowping.1", 1, 10), c.Bool("slowping.2", 1, 10)}
 		deadPing := []bool{c.Bool("deadping.0", 1, 8), c.Bool("deadping.1", 1, 8), c.Bool("deadping.2", 1, 8)}
 		var qs []*c02Query
 		script := cf.HandshakeSteps()
@@ -106,7 +107,7 @@ func runC02(t *testing.T, c *choice.Stream, r *Result, opt RunOpt) {
 				copy(sid[:], c.Bytes("span.sid", 8))
 				tid[0] |= 1
 				sid[0] |= 1
-				cq.span = trace.NewSpanContext(trace.SpanContextConfig{TraceID: tid, SpanID: sid, TraceFlags: trace.TraceFlags(c.Draw("span.flags", 2))})
+				cq.span = trace.NewSpanContext(trace.SpanContextConfig{TraceID: tid, SpanID: sid, TraceFlags: trace.TraceFlags(c.Pick("span.flags", 0, 1, 1, 2, 3, 0x80, 0xff))})
 				cq.ctx = trace.ContextWithSpanContext(context.Background(), cq.span)
 			}
 			if c.Bool("ext", 1, 3) {
@@ -214,6 +215,30 @@ func runC02(t *testing.T, c *choice.Stream, r *Result, opt RunOpt) {
 					r.Fire("ping_with_dead_context")
 					if cl.IsClosed() {
 						r.Probe("closed_by_dead_ping")
+						break
+					}
+				}
+				if slowPing[i%len(slowPing)] {
+					// ... or a probe that gives up because nothing can be written for a
+					// while (the peer is not reading): a transient failure, the
+					// connection is fine again by the time the query comes
+					conn.WriteBlockedUntil = e.Sim.Now() + 400*time.Millisecond
+					pctx, cancel := context.WithTimeout(context.Background(), 50*time.Millisecond)
+					mark := conn.OutLen()
+					perr := cl.Ping(pctx)
+					cancel()
+					if perr == nil {
+						r.Violate("dead-ping", "slow-ping-ok", "Ping returned nil although nothing could be written before its deadline")
+					}
+					if n := conn.OutLen() - mark; n != 0 {
+						r.Harness("blocked write put %d bytes on the wire", n)
+						return
+					}
+					time.Sleep(500 * time.Millisecond)
+					e.Sim.Yield("user.sleep")
+					r.Fire("ping_times_out_on_a_blocked_write")
+					if cl.IsClosed() {
+						r.Probe("closed_by_timed_out_ping")
 						break
 					}
 				}
